@@ -46,6 +46,21 @@ class Opt:
         self.v, self.some = v, some
 
 
+class Enum:
+    """field-less enum value (e.g. core::cmp::Ordering), by variant name"""
+    DISC = {"Equal": 0, "Less": 255, "Greater": 1}
+
+    def __init__(self, name):
+        self.name = name
+
+
+class Tok:
+    """opaque scalar identified by a label (used for order-only reasoning: values are touched only through comparisons
+    answered by the caller's model)"""
+    def __init__(self, label):
+        self.label = label
+
+
 class Iter:
     """iterator holding the list of items still to be produced (element references, sub-slices, tuples ...)"""
     def __init__(self, items):
@@ -269,6 +284,8 @@ def run(fn, args, stop_before=None, max_steps=4000, call_model=None, stop_after=
                 return params[k["param"]]
             if k.get("zst"):
                 return ()
+            if k.get("variant"):
+                return Enum(k["variant"])
             raise Stop("non-integer constant")
         return read(op_place(o))
 
@@ -328,6 +345,14 @@ def run(fn, args, stop_before=None, max_steps=4000, call_model=None, stop_after=
                 d0.fields[0] = s_ + 1
                 return Opt(s_, True)
             return Opt()
+        if name == "checked_sub" and len(argv) == 2 and all(isinstance(x, int) and not isinstance(x, bool) for x in argv):
+            return Opt(argv[0] - argv[1], True) if argv[0] >= argv[1] else Opt()
+        if name in ("unwrap_or",) and isinstance(a0, Opt) and len(argv) == 2:
+            return a0.v if a0.some else argv[1]
+        if name in ("unwrap", "expect") and isinstance(a0, Opt):
+            if not a0.some:
+                raise Stop("unwrap of None")
+            return a0.v
         if name == "swap" and len(argv) == 2 and isinstance(argv[0], Ref) and isinstance(argv[1], Ref):
             x, y = argv[0].get(), argv[1].get()
             argv[0].set(y)
@@ -395,6 +420,8 @@ def run(fn, args, stop_before=None, max_steps=4000, call_model=None, stop_after=
                 ops = [operand(o) for o in r["ops"]]
                 if r.get("adt") == "core::option::Option":
                     v = Opt(ops[0], True) if r.get("variant") == "Some" else Opt()
+                elif not ops and r.get("variant") and r.get("adt") != r.get("variant"):
+                    v = Enum(r["variant"])
                 else:
                     v = Struct({i: x for i, x in enumerate(ops)})
             elif k == "agg" and r.get("ak") == "array":
@@ -415,6 +442,8 @@ def run(fn, args, stop_before=None, max_steps=4000, call_model=None, stop_after=
                     dv = dv.get()
                 if isinstance(dv, Opt):
                     v = 1 if dv.some else 0
+                elif isinstance(dv, Enum) and dv.name in Enum.DISC:
+                    v = Enum.DISC[dv.name]
                 else:
                     raise Stop("discriminant of non-option")
             else:
